@@ -74,7 +74,31 @@ fn helpers(ctx: &mut Ctx, r: &mut Rng, _i: u64) {
             _ => Redeemers::from_bytes(vec![0xa0]).unwrap_or_else(|_| Redeemers::new()),
         }
     };
-    let datums = if with_dat { Some(g.plutus_list()) } else { None };
+    // datums: a typed list, the same list read back from a definite / indefinite spelling that REPEATS an
+    // element (the witness set writes a set: the repeat is left out), or an explicitly empty list (not written)
+    let datums = if with_dat {
+        let l = g.plutus_list();
+        match g.r.below(5) {
+            0 if l.len() > 0 => {
+                let mut items: Vec<vkit::cbor::Item> = (0..l.len()).filter_map(|i| vkit::cbor::parse(&l.get(i).to_bytes()).ok()).collect();
+                if let Some(first) = items.first().cloned() {
+                    items.push(first);
+                }
+                let arr = if g.r.bool() { vkit::cbor::Item::arr(items) } else { vkit::cbor::Item::arr(items).indef() };
+                match PlutusList::from_bytes(vkit::cbor::to_vec(&arr)) {
+                    Ok(p) => {
+                        ctx.bucket("helper.datums-read-from-a-list-with-a-repeat");
+                        Some(p)
+                    }
+                    Err(_) => Some(l),
+                }
+            }
+            1 => Some(PlutusList::new()),
+            _ => Some(l),
+        }
+    } else {
+        None
+    };
     let mut cm = Costmdls::new();
     let mut views: BTreeMap<u8, Vec<i128>> = BTreeMap::new();
     for l in 1u8..=3 {
@@ -135,11 +159,15 @@ fn helpers(ctx: &mut Ctx, r: &mut Rng, _i: u64) {
         (false, true) => "datums-only",
         _ => "neither",
     };
-    if cls == "neither" || (datums.as_ref().map(|d| d.len() == 0).unwrap_or(false)) {
-        // nothing is emitted for an empty redeemer set / empty datum list: the definition
-        // 'hash of what is emitted' does not fix the helper's result here
+    if cls == "neither" {
+        // nothing is emitted for an empty redeemer set without datums: the definition 'hash of what is
+        // emitted' does not fix the helper's result here
         ctx.bucket("skipped.helper-on-empty-script-data");
         return;
+    }
+    if datums.as_ref().map(|d| d.len() == 0).unwrap_or(false) {
+        // an explicitly empty datum list is not emitted: it contributes what an absent one does
+        ctx.bucket("helper.explicitly-empty-datum-list");
     }
     let want = vkit::ledger::script_integrity_hash(red_bytes.as_deref(), dat_bytes.as_deref(), &views);
     if got != want {
